@@ -41,7 +41,9 @@ def worker(arg):
     undo = common.apply_canary(*canary) if canary else None
     try:
         fns = U.real_functions()
-        for sc in scenario_list(tier)[lo:hi]:
+        todo = scenario_list(tier)[lo:hi] if lo >= 0 else [
+            e4.Scenario([(1, 0, "v"), (0, 0, "HH_m")], [("static", [(2, 1)], "a"), ("data", [(0, 0)], "b")], [("static", "v", (1, 0), "c")], T_len=3)]
+        for sc in todo:
             lab = sc.label()
             plain = e4.run_integrate(sc, fns)
             if "exception" in plain:
@@ -137,8 +139,8 @@ CANARIES = [
 def main(tier):
     ck = Check(PID, tier)
     n = len(scenario_list(tier))
-    chunks = [(tier, lo, min(lo + 2, n), None) for lo in range(0, n, 2)]
-    outs = run_units("jxverif.props.C06", "worker", chunks + [("quick", 0, 10**6, c) for c in CANARIES])
+    chunks = [(tier, lo, lo + 1, None) for lo in range(n)]
+    outs = run_units("jxverif.props.C06", "worker", chunks + [("quick", -1, 0, c) for c in CANARIES])
     outs_p = run_units("jxverif.props.C06", "purity_worker", [tier])
     nl = 0
     for o in outs[:len(chunks)] + outs_p:
